@@ -256,6 +256,7 @@ impl TraitHandler for CloneEnumHandler {
         } else {
             Some(quote! {
                 #[inline]
+                #[allow(non_snake_case)]
                 fn clone_from(&mut self, source: &Self) {
                     #clone_from_token_stream
                 }
@@ -276,6 +277,7 @@ impl TraitHandler for CloneEnumHandler {
         token_stream.extend(quote! {
             impl #impl_generics ::core::clone::Clone for #ident #ty_generics #where_clause {
                 #[inline]
+                #[allow(non_snake_case)]
                 fn clone(&self) -> Self {
                     #clone_token_stream
                 }
